@@ -158,6 +158,12 @@ def finding_key(case, r, wname):
     if wname in ("udf", "all") and "FFI error" in err and re.search(
             r"must be non-null scalar|only supports literal values|must be a scalar|requires all field_name arguments to be", err):
         return "ForeignScalarUDF passes scalar arguments as arrays"
+    if wname in ("udf", "all") and not err and "err" not in r["foreign"] and "array_has(make_array(c1, c2), 1)" in case["sql"]:
+        return "ForeignScalarUDF passes scalar arguments as arrays"
+    if wname in ("udf", "all") and "Divide by zero" in err and re.search(r"coalesce\([^()]*, \([^()]* / ", case["sql"]):
+        return "ForeignScalarUDF does not forward simplify()"      # coalesce no longer short-circuits: its arguments are evaluated eagerly
+    if wname in ("udaf", "all") and not err and "err" not in r["foreign"] and re.search(r"= \(SELECT count\(", case["sql"]) and "outer" in json.dumps(case.get("plan", "")):
+        return "ForeignAggregateUDF does not forward default_value (count in a correlated scalar subquery)"
     if wname in ("udaf", "all") and "WITHIN GROUP is only supported for ordered-set aggregate functions" in err:
         return "ForeignAggregateUDF does not forward ordered-set (WITHIN GROUP) support"
     return None
